@@ -105,7 +105,8 @@ class FileDumper(DumperBase):
             if descriptor['name'] == resource.res.descriptor['name']:
                 resource_descriptor = descriptor
 
-        # File size:
+        # File size (some formats write the file through its name, not through this handle):
+        temp_file.seek(0, os.SEEK_END)
         filesize = temp_file.tell()
         DumperBase.inc_attr(self.datapackage.descriptor, self.datapackage_bytes, filesize)
         DumperBase.set_attr(resource_descriptor, self.resource_bytes, filesize)
